@@ -4,11 +4,13 @@
    claims, identity verifier, composed into one world of contracts) and Model/ClaimIssuer.v (byte
    level helpers, key registry, nonces, revocation, the reference issuer).  A state is reached by
    [run c (init now ctis irss idents issuers) calls] for an arbitrary list of calls, an arbitrary
-   configuration c (constants of the code, network id, address encoding, signature oracle).
+   configuration c (constants of the code, network id, address encoding, signature oracle, and the
+   oracle [c_other]: what an address that is not a reference issuer answers to is_claim_valid).
    This file contains only pinned statements. *)
 From SC Require Import Lib.Prelude Lib.Int Lib.Host Model.ClaimIssuer Model.Identity Run.C15
   Proofs.C15Base Proofs.C15Bytes Proofs.C15Verify Proofs.C15Issuer Proofs.C15Registry Proofs.C15Ident
-  Proofs.C15World Proofs.C15Final Proofs.C15Extra Proofs.C15Monitor Proofs.C15Refuted Proofs.C15Examples.
+  Proofs.C15World Proofs.C15Final Proofs.C15Extra Proofs.C15Monitor Proofs.C15Refuted Proofs.C15Foreign Proofs.C15NoDup
+  Proofs.C15Examples.
 
 (* ------------------------------------------------------------------------------------------ *)
 (* F4 (fixed by commit 66a009a): before the fix a required topic with an empty trusted-issuer
@@ -123,6 +125,43 @@ Theorem C15_untrusted_issuer_never_counts :
 Proof. exact untrusted_issuer_never_counts. Qed.
 Print Assumptions C15_untrusted_issuer_never_counts.
 
+(* "That issuer confirms the claim", for EVERY address used as issuer: a reference issuer confirms by
+   its is_claim_valid (C15_issuer_iff below); any other address - a foreign issuer contract, a
+   contract of another kind, a non-contract address - confirms exactly when the cross-contract call
+   returns normally WITH THE UNIT VALUE ([c_other]; ClaimIssuer::is_claim_valid has no result).  A
+   call that merely "did not trap" (the issuer answered `false`, `true`, an error code) is no
+   confirmation: validate_claim is false, add_claim refuses, and after ANY call sequence an account
+   whose required topic t is covered only by such answers is not verified. *)
+Theorem C15_confirmation_is_the_unit_answer :
+  forall c w i d t scheme sig data,
+    call_is_claim_valid c w i d t scheme sig data = Ok tt <->
+    (exists s, the_issuer w i = Ok s /\ is_claim_valid c (w_now w) i s d t scheme sig data = Ok tt)
+    \/ (the_issuer w i = Fail /\ c_other c i d t scheme sig data = true).
+Proof. exact confirmation_cases. Qed.
+Print Assumptions C15_confirmation_is_the_unit_answer.
+Theorem C15_foreign_issuer_validate_and_add_claim :
+  forall c w cl t i d,
+    the_issuer w i = Fail ->
+    (validate_claim c w cl t i d = true <->
+     cl_topic cl = t /\ cl_issuer cl = i /\ c_other c i d t (cl_scheme cl) (cl_sig cl) (cl_data cl) = true) /\
+    (forall d' w' out, cl_issuer cl = i -> step c w (AddClaim d' cl) = (w', Ok out) ->
+       c_other c i d' (cl_topic cl) (cl_scheme cl) (cl_sig cl) (cl_data cl) = true).
+Proof. exact foreign_validate_and_add_claim. Qed.
+Print Assumptions C15_foreign_issuer_validate_and_add_claim.
+Theorem C15_non_unit_answer_never_counts :
+  forall c now ctis irss idents issuers (calls : list call) (a : addr) (t : Z),
+    let w := run c (init now ctis irss idents issuers) calls in
+    forall ra r d ca ct,
+      w_virs w = Some ra -> the_irs w ra = Ok r -> stored_identity r a = Ok d ->
+      w_vcti w = Some ca -> the_cti w ca = Ok ct -> In t (ct_topics ct) ->
+      (forall i, is_trusted_issuer ct i = true -> has_claim_topic ct i t = Ok true ->
+         the_issuer w i = Fail /\
+         forall s cl, the_ident w d = Ok s -> get_claim s (i, t) = Ok cl ->
+           c_other c i d t (cl_scheme cl) (cl_sig cl) (cl_data cl) = false) ->
+      verify_identity c w a = Fail.
+Proof. exact non_unit_answer_never_counts. Qed.
+Print Assumptions C15_non_unit_answer_never_counts.
+
 (* "The account's registered identity": an account that was recovered to another one has no
    registered identity any more and is never verified again (any call sequence).                 *)
 Theorem C15_recovered_account_unverifiable :
@@ -155,6 +194,22 @@ Theorem C15_registry_coherent :
          forall i, In i l <-> (is_trusted_issuer ct i = true /\ has_claim_topic ct i t = Ok true)).
 Proof. exact registry_reading_reachable. Qed.
 Print Assumptions C15_registry_coherent.
+
+(* No list of the registry ever names an entry twice (required topics, trusted issuers, the issuers
+   of a topic, the topics of an issuer), after any history; a topic list naming a topic twice - of any
+   length - is refused by add_trusted_issuer and update_issuer_claim_topics.                      *)
+Theorem C15_registry_lists_duplicate_free :
+  forall c now ctis irss idents issuers (calls : list call) a ct,
+    the_cti (run c (init now ctis irss idents issuers) calls) a = Ok ct ->
+    NoDup (ct_topics ct) /\ NoDup (ct_issuers ct) /\
+    (forall t l, get_claim_topic_issuers ct t = Ok l -> NoDup l) /\
+    (forall i l, get_trusted_issuer_claim_topics ct i = Ok l -> NoDup l).
+Proof. exact registry_lists_nodup. Qed.
+Print Assumptions C15_registry_lists_duplicate_free.
+Theorem C15_duplicate_topic_list_refused :
+  forall c s i ts, ~ NoDup ts -> add_trusted_issuer c s i ts = Fail /\ update_issuer_claim_topics c s i ts = Fail.
+Proof. exact duplicate_topic_list_refused. Qed.
+Print Assumptions C15_duplicate_topic_list_refused.
 
 (* ------------------------------------------------------------------------------------------ *)
 (* The reference issuer confirms a claim exactly when: the signature data has the layout of the
@@ -301,12 +356,14 @@ Print Assumptions C15_signature_layouts.
    from itself.  The monitor is the property over implementation observations only: state clauses
    (shape of the observation, verify_identity iff, what each issuer confirms and answers about every
    held claim - computed from the HISTORY of successful allow_key / remove_key / nonce bumps /
-   revocations, not from the issuer's own getters, which are checked against it -, registry
-   coherence, identity registry) and call clauses (clock; the answer of every call the property or
+   revocations, not from the issuer's own getters, which are checked against it; for an address that
+   is not a reference issuer: only a foreign issuer contract confirms, only by the unit answer -,
+   registry coherence and duplicate-freedom of its lists, identity registry) and call clauses (clock; the answer of every call the property or
    one of its getters determines; a failing or read-only call changes nothing stored; a successful
    call changes exactly what its kind may).  [observe_model h calls] is the model's trace in the
    shape the harness prints: every item carries its own list of revocation queries.
-   [hdr_ok]: non-empty universe; [wf_call]: the accounts, issuers, topics and claim ids a call names
+   [hdr_ok]: non-empty universe, reference and foreign issuer contracts are among the observed issuer
+   addresses and disjoint; [wf_call]: the accounts, issuers, topics and claim ids a call names
    belong to the universe the header declares (checked by the monitor itself on a real trace). *)
 Theorem C15_monitor_accepts_model :
   forall (h : hdr) (calls : list (call * list rkey)),
@@ -375,7 +432,7 @@ Example C15_monitor_rejects_review :
   map mon_of
     [(ex_hdr, tamper_last (fun o => set_verify o []) (mt (ex_history ++ [RemoveIssuer 0%N 3%N])));
      (ex_hdr, []);
-     (HDR ex_net 50 ex_xdr [] 15 50 50 20 15 [0%N] [1%N] [2%N] [3%N] [] [3%N] [1] [] [], mt ex_history)]
+     (HDR ex_net 50 ex_xdr [] 15 50 50 20 15 [0%N] [1%N] [2%N] [3%N] [] [3%N] [1] [] [] [], mt ex_history)]
   = [9%N; 1%N; 1%N].
 Proof.
   exact (conj monitor_rejects_call_answers (conj monitor_rejects_getter_says_allowed (conj monitor_rejects_history monitor_rejects_malformed))).
@@ -393,3 +450,34 @@ Example C15_dangling_ids :
      [Ok VUnit; Ok VUnit; Ok VUnit; Ok VUnit; Ok VUnit; Ok VUnit; Ok VUnit; Ok (VCid (3%N, 1)); Ok VUnit; Ok VUnit; Ok VUnit; Fail] /\
    check (ex_hdr, mt dangling_required) = (0%N, 0%N, 0%N)).
 Proof. exact (conj monitor_rejects_refusal_with_unrelated_dangling_id code_refuses_on_dangling_required_id). Qed.
+(* foreign issuers (contract 5 answers the unit value for schemes 200 and 207 only; 9 is no contract):
+   what the model does, that the checker accepts it, and that the monitor rejects an implementation
+   that counts "the call did not trap" as a confirmation - verify_identity reporting the account as
+   verified, validate_claim answering true, add_claim storing the claim - or a non-contract address
+   reported as confirming; and a registry that accepted the topic list [1; 1] *)
+Example C15_foreign_issuers :
+  (fx_outs (fx_setup ++ [AddClaim 2%N (fx_claim 201); ForceClaim 2%N (5%N, 1) 1 (fx_claim 201); Verify 10%N;
+                         ValidateClaim (fx_claim 201) 1 5%N 2%N; IsClaimValid 5%N 2%N 1 202 [] [];
+                         ValidateClaim (fx_claim 200) 1 5%N 2%N; ValidateClaim (fx_claim 200) 1 9%N 2%N;
+                         AddClaim 2%N (fx_claim 207); Verify 10%N; RemoveIssuer 0%N 5%N; Verify 10%N])
+   = [Ok VUnit; Ok VUnit; Ok VUnit; Ok VUnit; Ok VUnit; Ok VUnit;
+      Fail; Ok VUnit; Fail; Ok (VBool false); Fail; Ok (VBool true); Ok (VBool false);
+      Ok (VCid (5%N, 1)); Ok VUnit; Ok VUnit; Fail]
+   /\ check (fx_hdr, fx_mt (fx_setup ++ [AddClaim 2%N (fx_claim 201); ForceClaim 2%N (5%N, 1) 1 (fx_claim 201); Verify 10%N;
+                                        AddClaim 2%N (fx_claim 207); Verify 10%N])) = (0%N, 0%N, 0%N))
+  /\ map mon_of
+    [(fx_hdr, tamper_last (fun o => set_verify o [true]) (fx_mt (fx_setup ++ [ForceClaim 2%N (5%N, 1) 1 (fx_claim 201)])));
+     (fx_hdr, fx_mt (fx_setup ++ [ForceClaim 2%N (5%N, 1) 1 (fx_claim 201)])
+                ++ [(ValidateClaim (fx_claim 201) 1 5%N 2%N, Ok (VBool true),
+                     observe fx_hdr (run (cfg_of fx_hdr) (init_of fx_hdr) (fx_setup ++ [ForceClaim 2%N (5%N, 1) 1 (fx_claim 201)])))]);
+     (fx_hdr, fx_mt fx_setup
+                ++ [(AddClaim 2%N (fx_claim 201), Ok (VCid (5%N, 1)),
+                     observe fx_hdr (run (cfg_of fx_hdr) (init_of fx_hdr) (fx_setup ++ [ForceClaim 2%N (5%N, 1) 1 (fx_claim 201)])))]);
+     (fx_hdr, tamper_last (map_cells confirmed_cell) (fx_mt (fx_setup ++ [ForceClaim 2%N (9%N, 1) 1 (CL 1 200 9%N [] [] 0)])))]
+  = [7%N; 8%N; 7%N; 7%N]
+  /\ mon_of (ex_hdr, mt [AddTopic 0%N 1] ++
+                  [(AddIssuer 0%N 3%N [1; 1], Ok VUnit, dup_obs (last_obs [AddTopic 0%N 1; AddIssuer 0%N 3%N [1]]))]) = 2%N.
+Proof.
+  split; [exact foreign_issuer_model|]. split; [exact monitor_rejects_non_unit_answer_counted|].
+  exact (proj1 (proj2 monitor_rejects_duplicate_topic_list)).
+Qed.
